@@ -41,6 +41,18 @@ SEEDS = {
  "s3-C16c": ("C16", ["C16"], "pure data race: parameter $ref resolution memoised in a map shared by all readers of one Spec"),
  "s3-C17c": ("C17", ["C17"], "a mixin security requirement that is a strict superset of one already merged (or an empty requirement in the primary)"),
  "s3-C20c": ("C20", ["C20", "C03"], "object with properties/allOf and the boolean additionalProperties: true"),
+ "s4-C01d": ("C01", ["C01"], "root without a definitions section + two $ref-free imported definitions with the same name (nil map hoisted out of the import loop)"),
+ "s4-C02d": ("C02", ["C02", "C11"], "a $ref held by additionalItems of a schema whose items is absent or a single schema"),
+ "s4-C03d": ("C03", ["C03"], "a response under a status code without registered reason phrase (299, 420, 599): its schemas are skipped by the depth-first ordering"),
+ "s4-C04d": ("C04", ["C04"], "an anonymous pointer into a definition whose name is URL-escaped in $ref strings (space, braces, non-ASCII), named by namePointers (key no longer unescaped in getParentFromKey)"),
+ "s4-C06d": ("C06", ["C06"], "RemoveUnused run before pointers are resolved: a definition used only through an anonymous pointer into it survives"),
+ "s4-C07d": ("C07", ["C07"], "path-level body parameter with an inline complex schema on a path with >= 2 operations: candidate names iterated in map order"),
+ "s4-C08d": ("C08", ["C08", "C02"], "full flatten + non-complex colliding import with >= 2 referrers: the pointer created by stripOAIGen is no more named in full mode"),
+ "s4-C09d": ("C09", ["C09", "C20"], "two containers closing two different cycles through each other (multi-typed, or anyOf side branch): the cycle guard of Schema() remembers the last $ref only"),
+ "s4-C10d": ("C10", ["C10"], "no definition created during the run + an anonymous pointer expanded in place or replaced by a top-level $ref, RemoveUnused off: conditional reload skipped"),
+ "s4-C12d": ("C12", ["C12"], "TopLevel computed from a suffix test: schema-level definitions, a response/parameter named 'definitions'"),
+ "s4-C18d": ("C18", ["C18"], "an id carried by a skipped (colliding) path of an earlier mixin and by a fresh path of a later one"),
+ "s4-C19d": ("C19", ["C19"], "operation whose responses hold only an undescribed default response"),
 }
 only = set(sys.argv[1:])
 res_path = os.path.join(HERE, "seeded", "results.json")
